@@ -197,6 +197,9 @@ func c19Special() [][]interface{} {
 		out = append(out, []interface{}{map[string]interface{}{"op": op, "table": "T", "columns": []interface{}{"n"}, "until": "bogus", "timeout": 0.0,
 			"rows": []interface{}{map[string]interface{}{"nope": 1.0}}, "where": []interface{}{}}})
 	}
+	// a wait without the timeout member whose expectation does not hold (RFC 7047: wait indefinitely)
+	out = append(out, []interface{}{map[string]interface{}{"op": "wait", "table": "T", "columns": []interface{}{"n"}, "until": "==",
+		"rows": []interface{}{map[string]interface{}{"n": 123456.0}}, "where": []interface{}{}}})
 	out = append(out, []interface{}{}) // no operation at all
 	return out
 }
@@ -308,6 +311,7 @@ func driveC19(o opts) error {
 		return err
 	}
 	tg := &txnGen{g: g, sc: sc, state: map[string]map[string]map[string]val.Val{}, pool: 6, pSelect: 0.15, pWait: 0.1, pInvalid: 0.1, dangling: 0.05}
+	hung := false
 	runTrees := func(stage string, opsTree []interface{}, transact func([]ovsdb.Operation) ([]*ovsdb.OperationResult, bool, string)) {
 		b, _ := json.Marshal(opsTree)
 		var oops []ovsdb.Operation
@@ -321,16 +325,33 @@ func driveC19(o opts) error {
 			w.Count(stage + ":undecodable")
 			return
 		}
-		_, class, msg = guarded(func() (interface{}, error) {
-			results, _, cerr := transact(oops)
-			if cerr != "" {
-				return nil, fmt.Errorf("%s", cerr)
-			}
-			if len(results) < len(oops) && len(oops) > 0 {
-				return nil, fmt.Errorf("only %d results for %d operations", len(results), len(oops))
-			}
-			return nil, nil
-		})
+		type outcome struct {
+			class int
+			msg   string
+		}
+		done := make(chan outcome, 1)
+		go func() {
+			_, class, msg := guarded(func() (interface{}, error) {
+				results, _, cerr := transact(oops)
+				if cerr != "" {
+					return nil, fmt.Errorf("%s", cerr)
+				}
+				if len(results) < len(oops) && len(oops) > 0 {
+					return nil, fmt.Errorf("only %d results for %d operations", len(results), len(oops))
+				}
+				return nil, nil
+			})
+			done <- outcome{class, msg}
+		}()
+		select {
+		case oc := <-done:
+			class, msg = oc.class, oc.msg
+		case <-time.After(10 * time.Second):
+			// no generated wait carries a timeout above a few milliseconds
+			goFail(stage, fmt.Sprintf("transact %s is not answered within 10 s (the database never finishes the transaction)", string(b)), opsTree)
+			hung = true
+			return
+		}
 		switch class {
 		case 2:
 			goFail(stage, fmt.Sprintf("transact %s panics: %s", string(b), msg), opsTree)
@@ -377,14 +398,20 @@ func driveC19(o opts) error {
 			opsTree = genOpsTree()
 		}
 		runTrees("transact", opsTree, inProcess)
+		if hung {
+			break
+		}
 		if i%10 == 9 {
 			stillServes("transact", inProcess)
 		}
 	}
-	if o.tier != "thorough" {
+	if o.tier != "thorough" && !hung {
 		// the hand-picked degenerate operations always run
 		for _, opsTree := range special {
 			runTrees("transact-special", opsTree, inProcess)
+			if hung {
+				break
+			}
 		}
 		stillServes("transact-special", inProcess)
 	}
@@ -457,6 +484,7 @@ func driveC19srv(o opts) error {
 	lab := slab.txnLab
 	tg := &txnGen{g: g, sc: sc, state: map[string]map[string]map[string]val.Val{}, pool: 6, pSelect: 0.15, pWait: 0.1, pInvalid: 0.1, dangling: 0.05}
 	genOpsTree := func() []interface{} { return c19OpsTree(lab, tg, wg) }
+	wedged := false
 	rawTransact := func(opsTree []interface{}) {
 		note("server transact", opsTree)
 		args := append([]interface{}{sc.Name}, opsTree...)
@@ -468,6 +496,7 @@ func driveC19srv(o opts) error {
 			// an error reply is an answer
 		case <-time.After(5 * time.Second):
 			goFail("server", "no answer to the transact request within 5s", opsTree)
+			wedged = true
 			return
 		}
 		var echo interface{}
@@ -483,7 +512,7 @@ func driveC19srv(o opts) error {
 			goFail("server", "no answer to echo after the transact request", opsTree)
 		}
 	}
-	for i := 0; i < nSrv; i++ {
+	for i := 0; i < nSrv && !wedged; i++ {
 		if i%2 == 0 {
 			rawTransact(special[g.Intn(len(special))])
 		} else {
